@@ -19,7 +19,7 @@ DRIVERS = {
     'utf8': ['decoder', 'utils'], 'input': ['decoder'], 'utils': ['utils', 'autocomplete', 'editor'],
     'token': ['token'], 'arguments': ['token'], 'command': ['token', 'cli'], 'help': ['token', 'cli'],
     'editor': ['editor', 'cli'], 'history': ['history', 'cli'], 'autocomplete': ['autocomplete', 'cli'],
-    'tmpl_autocomplete': ['cli'], 'tmpl_group_autocomplete': ['cli'], 'tmpl_group_help': ['derive_fail', 'derive_help', 'cli'], 'writer': ['writer', 'cli'], 'cli': ['cli'], 'builder': ['cli'], 'service': ['cli'],
+    'tmpl_autocomplete': ['cli', 'derive_hidden'], 'tmpl_group_autocomplete': ['derive_hidden', 'cli'], 'tmpl_group_help': ['derive_fail', 'derive_help', 'cli'], 'writer': ['writer', 'cli'], 'cli': ['cli'], 'builder': ['cli'], 'service': ['cli'],
     'buffer': ['editor', 'history'], 'codes': ['cli'],
 }
 # drivers that accept a property filter
